@@ -173,7 +173,7 @@ func init() {
 	})
 	register(&Property{
 		ID: "C36",
-		Explanation: "Decides, for every execution and crash point of (*local.Local).Save: (atomic-save) the final name is the destination of exactly one os.Rename whose source is the Name() of the temporary created by tempFile in filepath.Dir(finalname); the rename is reachable only through the success edges of io.Copy (into that temporary) and f.Close, the bytes-written == rd.Length() edge, after f.Sync() was called, and — from Sync — only on its success edge or an edge classifying the error as 'sync not supported'; after the rename success is reported only after fsyncDir succeeded (same tolerance); apart from Rename the final name is handed only to Dir/Base/debug.Log/setFileReadonly, so no other call can create it; error paths remove the temporary; (temp-not-listed) the temporary name is Base(finalname) plus a constant with a non-hex character, Repository.List passes a name to its callback only on the success edge of ParseID, and the tempFile hook is never reassigned. Not decided: atomicity and durability semantics of rename/fsync on the underlying file system.",
+		Explanation: "Decides, for every execution and crash point of (*local.Local).Save: (atomic-save) the final name is the destination of exactly one os.Rename whose source is the Name() of the temporary created by tempFile in filepath.Dir(finalname); the rename is reachable only through the success edges of io.Copy (into that temporary) and f.Close, the bytes-written == rd.Length() edge, after f.Sync() was called, and — from Sync — only on its success edge or an edge classifying the error as 'sync not supported'; after the rename success is reported only after fsyncDir succeeded (same tolerance); apart from Rename the final name is handed only to Dir/Base/debug.Log/setFileReadonly, so no other call can create it; error paths remove the temporary; (temp-not-listed) the temporary name is Base(finalname) plus a constant with a non-hex character, Repository.List passes a name to its callback only on the success edge of ParseID, and the tempFile hook is never reassigned. (temp-removed-on-failure) the deferred clean-up of Local.Save calls os.Remove(f.Name()) on every path on which the save's error is non-nil — also when the close or the rename failed, after which the file is no longer open; the local backend lists whatever lies in a repository directory (added after a seeded change that removed the file only if Close succeeded). Not decided: atomicity and durability semantics of rename/fsync on the underlying file system.",
 		Assumptions: append([]string{"os.Rename within one directory is atomic; fsync makes file content durable"}, commonAssumptions...),
 		Technique:   "static analysis: CFG edge cuts (success edges, tolerant sync form, path-sensitive) + value origin of every use of the final name (go/ssa)",
 		AllConfigs:  true,
@@ -181,8 +181,11 @@ func init() {
 			ruleAtomicSave(c, localSaveSpec)
 			ruleLocalLengthCheck(c)
 			ruleTempNotListed(c)
+			ruleTempRemovedOnFailure(c)
 		},
 		Controls: []Control{
+			{Name: "temp-kept-when-it-was-closed-already", File: "internal/backend/local/local.go",
+				Old: "			_ = f.Close() // Double Close is harmless.\n", New: "			if f.Close() != nil {\n				return\n			}\n", Rule: "temp-removed-on-failure"},
 			{Name: "rename-before-sync", File: "internal/backend/local/local.go",
 				Old: "	err = f.Sync()\n	syncNotSup := err != nil && (errors.Is(err, syscall.ENOTSUP) || isMacENOTTY(err))\n	if err != nil && !syncNotSup {\n		return errors.WithStack(err)\n	}\n",
 				New: "	syncNotSup := false\n", Rule: "atomic-save"},
